@@ -71,3 +71,19 @@ u!(c15_revocation_identifiers_unverified, {
     std::mem::forget(ids);
     std::mem::forget(t);
 });
+u!(c08_sealed_unverified_refuses, {
+    let mut t = token(1);
+    let s: [u8; 3] = kani::any();
+    let old = std::mem::replace(&mut t.container.proof, crate::crypto::TokenNext::Seal(crate::crypto::Signature::from_vec(s.to_vec())));
+    std::mem::forget(old);
+    crate::crypto::kh_oracle::switch_on();
+    let refused = if kani::any() {
+        matches!(t.third_party_request(), Err(error::Token::AppendOnSealed))
+    } else {
+        matches!(t.seal(), Err(error::Token::AlreadySealed))
+    };
+    kani::cover!(refused, "witness: a sealed token refused the operation");
+    assert!(refused, "a sealed UnverifiedBiscuit accepts a third-party request or a re-seal");
+    assert!(crate::crypto::kh_oracle::n_sign() == 0, "something was signed for a sealed token");
+    std::mem::forget(t);
+});
